@@ -312,12 +312,13 @@ def coq_term(case):
         lets = "".join("let s%d := %s in " % (i, _stat(s["total"], list(zip(case["ids"], s["cpus"])), SCRIPT_TAIL))
                        for i, s in enumerate(case["snaps"]))
         evs = ["(mk_ev %d %s %s %s s%d s%d)" % (e["tid"], FN[e["fn"]], G.bo(e["percpu"]), IV[e["iv"]], e["k1"], e["k2"]) for e in case["events"]]
-        imp = "None" if case.get("imp") is None else "(Some (0, s%d))" % case["imp"]
+        imp = "(Some (%d, s%d))" % _imp_of(case)
         return "%srun_script %s %s %s %s" % (lets, clk, G.nat(case["nf"]), imp, G.lst(evs))
     if k == "script_raw":
         evs = ["(Build_event %d %s %s %s %s %s)" % (e["tid"], FN[e["fn"]], G.bo(e["percpu"]), IV[e["iv"]],
                                                     G.by(bytes.fromhex(e["k1"])), G.by(bytes.fromhex(e["k2"]))) for e in case["events"]]
-        imp = "None" if case.get("imp") is None else "(Some (0, %s))" % G.by(bytes.fromhex(case["imp"]))
+        imp_tid, imp_hex = _imp_of(case)
+        imp = "(Some (%d, %s))" % (imp_tid, G.by(bytes.fromhex(imp_hex)))
         return "run_script_raw %s %s %s" % (clk, imp, G.lst(evs))
     if k == "proc":
         rd = lambda r: "(mk_rd %s %d %d %d %d %d)" % (_q(r[0]), r[1], r[2], r[3], r[4], r[5])  # noqa: E731
@@ -444,17 +445,74 @@ def _shape_outcome(fn, conv):
         return T("BadShape", str(e))
 
 
-def _prep(env, clk):
-    import psutil
-    from psutil import _pslinux
-    from pv import fakeproc
-    root = os.path.join(env["work"], "proc")
-    fp = fakeproc.FakeProc(root)
-    fakeproc.attach(psutil, root)
-    _pslinux.set_scputimes_ntuple.cache_clear()
-    for d in (psutil._last_cpu_times, psutil._last_per_cpu_times, psutil._last_cpu_times_2, psutil._last_per_cpu_times_2):
-        d.clear()
-    return psutil, _pslinux, fp, root
+IMPORTER_ELSEWHERE = 99     # thread id (of the model) of a parked helper thread that imports psutil but never calls it
+
+
+class _ImportFailed(Exception):
+    pass
+
+
+class _Fresh:
+    """One freshly imported psutil per case.  The ONLY way state is reset is by re-executing psutil's import
+    (importlib.reload of the platform module, if there is one, and of the package) while
+      * /proc/stat is redirected to a fake file by pv.shim (builtins.open),
+      * os.sysconf answers the case's SC_CLK_TCK (and, for Process cases, SC_NPROCESSORS_ONLN),
+      * time.monotonic is the scripted clock (Process cases).
+    Nothing private of psutil is read or written: a refactoring of its internals cannot crash the harness, it can only
+    change the answers of the public functions, which is what is judged."""
+
+    def __init__(self, env, clk, content, importer=None, clock=None, ncpu=None):
+        import importlib
+        import sys
+        import time
+        from pv import fakeproc
+        from pv.shim import Shim
+        self.root = os.path.join(env["work"], "proc")
+        self.fp = fakeproc.FakeProc(self.root)
+        _write_stat(self.root, content if content is not None else open(os.path.join(self.root, "stat"), "rb").read())
+        self.shim = Shim({"/proc/stat": os.path.join(self.root, "stat")})
+        self.real_sysconf, self.real_monotonic, self.time = os.sysconf, time.monotonic, time
+
+        def sysconf(name):
+            if name == "SC_CLK_TCK":
+                return clk
+            if name == "SC_NPROCESSORS_ONLN" and ncpu is not None:
+                return ncpu["n"]
+            return self.real_sysconf(name)
+        os.sysconf = sysconf
+        if clock is not None:
+            time.monotonic = lambda: clock["t"]
+        self.shim.install()
+        try:
+            import psutil
+
+            def do_import():
+                plat = sys.modules.get("psutil._pslinux")
+                if plat is not None:
+                    importlib.reload(plat)
+                importlib.reload(psutil)
+            try:
+                if importer is None:
+                    do_import()
+                else:
+                    importer.call(do_import)      # import executed by another (parked, never calling) thread
+            except BaseException as e:  # noqa
+                if isinstance(e, (KeyboardInterrupt, SystemExit)):
+                    raise
+                raise _ImportFailed("%s: %s" % (type(e).__name__, e))
+            self.psutil = psutil
+        except BaseException:
+            self.close()
+            raise
+
+    def use_fake_tree(self):
+        """per-process files come from the fake tree (documented public switch)"""
+        self.psutil.PROCFS_PATH = self.root
+
+    def close(self):
+        self.shim.uninstall()
+        os.sysconf = self.real_sysconf
+        self.time.monotonic = self.real_monotonic
 
 
 def _write_stat(root, content):
@@ -507,15 +565,14 @@ def _times_results(psutil):
 def impl_run(case, coq, env):
     import time
     k = case["kind"]
-    clk = case["clk"]
-    psutil, _pslinux, fp, root = _prep(env, clk)
-    old_clk = _pslinux.CLOCK_TICKS
-    _pslinux.CLOCK_TICKS = clk
     try:
         if k in ("times", "times_raw"):
             content = unB(coq["printed"]) if k == "times" else bytes.fromhex(case["content"])
-            _write_stat(root, content)
-            res = _times_results(psutil)
+            fr = _Fresh(env, case["clk"], content)
+            try:
+                res = _times_results(fr.psutil)
+            finally:
+                fr.close()
             rel = lambda c: Fraction(1, 2 ** 48) * max(1, abs(c))  # noqa: E731
             out = []
             for i in (0, 1):
@@ -525,12 +582,13 @@ def impl_run(case, coq, env):
                 out.append(_snap_outcome(r, cands, rel) if isinstance(r, dict) and r.get("t") == "Val" else r)
             return out
         if k in ("script", "script_raw"):
-            return _run_script(case, coq, psutil, root, time)
+            return _run_script(case, coq, env, time)
         if k == "proc":
-            return _run_proc(case, coq, psutil, fp, time)
+            return _run_proc(case, coq, env, time)
         raise ValueError(k)
-    finally:
-        _pslinux.CLOCK_TICKS = old_clk
+    except _ImportFailed as e:
+        # the implementation cannot even be imported over this /proc/stat: an answer, judged like any other
+        return T("ImportFailed", str(e)[:300])
 
 
 def _tolerance(case):
@@ -543,39 +601,33 @@ def _tolerance(case):
     return lambda c: t
 
 
-def _import_over(psutil, root, content, clk):
-    """Re-execute psutil's import (the _pslinux layout probe and the priming of the four per-thread maps in
-    psutil/__init__.py) in this -- the main -- thread while /proc/stat shows `content`.  Returns the installed shim:
-    psutil.PROCFS_PATH is "/proc" again and every later read of /proc/stat goes to the fake file."""
-    import importlib
-    from pv.shim import Shim
-    _write_stat(root, content)
-    sh = Shim({"/proc/stat": os.path.join(root, "stat")})
-    real_sysconf = os.sysconf
-    os.sysconf = lambda name: clk if name == "SC_CLK_TCK" else real_sysconf(name)
-    sh.install()
-    try:
-        importlib.reload(psutil._pslinux)
-        importlib.reload(psutil)
-    except BaseException:
-        sh.uninstall()
-        raise
-    finally:
-        os.sysconf = real_sysconf
-    assert psutil.PROCFS_PATH == "/proc" and psutil._pslinux.CLOCK_TICKS == clk
-    return sh
+def _imp_of(case):
+    """(model thread id of the importer, what the import reads): an explicit 'imp' = imported by the script's main thread 0;
+    otherwise psutil is imported by a parked foreign thread over the first call's kernel state, i.e. no script thread has a sample."""
+    k = case["kind"]
+    if case.get("imp") is not None:
+        return 0, case["imp"]
+    return IMPORTER_ELSEWHERE, case["events"][0]["k1"]
 
 
-def _run_script(case, coq, psutil, root, time):
+def _run_script(case, coq, env, time):
     k = case["kind"]
     tol = _tolerance(case)
     rel = lambda c: Fraction(1, 2 ** 48) * max(1, abs(c))  # noqa: E731
     threads = {}
     pending = {"k2": None, "slept": 0}
     real_sleep = time.sleep
-    shim = None
-    if case.get("imp") is not None:
-        shim = _import_over(psutil, root, unB(coq["imp_printed"]) if k == "script" else bytes.fromhex(case["imp"]), case["clk"])
+    imp_tid, imp_what = _imp_of(case)
+    content = unB(coq["imp_printed"]) if k == "script" else bytes.fromhex(imp_what)
+    if imp_tid != 0:
+        threads[imp_tid] = _Thread()       # stays alive to the end of the script: its ident cannot be recycled
+    try:
+        fr = _Fresh(env, case["clk"], content, importer=threads.get(imp_tid))
+    except BaseException:
+        for t in threads.values():
+            t.stop()
+        raise
+    psutil, root = fr.psutil, fr.root
 
     def fake_sleep(x):
         pending["slept"] += 1
@@ -635,8 +687,7 @@ def _run_script(case, coq, psutil, root, time):
             out.append(r)
     finally:
         time.sleep = real_sleep
-        if shim is not None:
-            shim.uninstall()
+        fr.close()
         for t in threads.values():
             t.stop()
     return out
@@ -647,14 +698,18 @@ def _set_proc_stat(fp, pid, r):
     fp.add(pid, utime=r[1], stime=r[2], cutime=r[3], cstime=r[4], blkio=r[5], nfields=52)
 
 
-def _run_proc(case, coq, psutil, fp, time):
+def _run_proc(case, coq, env, time):
     pid = 4242
-    _set_proc_stat(fp, pid, case["events"][0]["r1"])
     objs = {}
     now = {"t": 0.0}
     pending = {"then": None, "slept": 0}
-    real_sleep, real_timer, real_cc = time.sleep, psutil._timer, psutil._psplatform.cpu_count_logical
+    real_sleep = time.sleep
     ncpu = {"n": 1}
+    # scripted clock = time.monotonic, scripted CPU count = os.sysconf("SC_NPROCESSORS_ONLN"), for the whole case
+    fr = _Fresh(env, case["clk"], None, clock=now, ncpu=ncpu)
+    psutil, fp = fr.psutil, fr.fp
+    fr.use_fake_tree()
+    _set_proc_stat(fp, pid, case["events"][0]["r1"])
 
     def fake_sleep(x):
         pending["slept"] += 1
@@ -663,8 +718,6 @@ def _run_proc(case, coq, psutil, fp, time):
             now["t"] = float(Fraction(*r2[0]))
             _set_proc_stat(fp, pid, r2)
     time.sleep = fake_sleep
-    psutil._timer = lambda: now["t"]
-    psutil._psplatform.cpu_count_logical = lambda: (None if ncpu["n"] == 0 else ncpu["n"])
     out = []
     try:
         for idx, e in enumerate(case["events"]):
@@ -698,7 +751,8 @@ def _run_proc(case, coq, psutil, fp, time):
                 r = _snap_outcome(r, [coq["model"][idx], coq["spec"][idx]], tol)
             out.append(r)
     finally:
-        time.sleep, psutil._timer, psutil._psplatform.cpu_count_logical = real_sleep, real_timer, real_cc
+        time.sleep = real_sleep
+        fr.close()
     return out
 
 
